@@ -53,20 +53,23 @@ func init() {
 	mutant("settings-window-code", "settings-validate", "settings.go", "return NewGoAwayError(FlowControlError, \"SETTINGS_INITIAL_WINDOW_SIZE above maximum\")", "return NewGoAwayError(ProtocolError, \"SETTINGS_INITIAL_WINDOW_SIZE above maximum\")")
 	mutant("settings-framesize-lower", "settings-validate", "settings.go", "if value < 1<<14 || value > 1<<24-1 {", "if value > 1<<24-1 {")
 	mutant("settings-double-ack", "settings-ack-once", "serverConn.go", "	stRes.SetAck(true)\n\n	fr.SetBody(stRes)\n\n	sc.write(fr)\n}", "	stRes.SetAck(true)\n\n	fr.SetBody(stRes)\n\n	if st.hasWindowSize {\n		sc.write(fr)\n	}\n}")
-	mutant("settings-window-unguarded", "settings-presence-guard", "conn.go", "	if st.hasWindowSize {\n		c.applyInitialWindow(int32(st.MaxWindowSize()))\n	}", "	c.applyInitialWindow(int32(st.MaxWindowSize()))")
+	mutant("settings-window-unguarded", "settings-presence-guard", "conn.go", "	if st.hasWindowSize {\n		if err := c.applyInitialWindow(int32(st.MaxWindowSize())); err != nil {", "	{\n		if err := c.applyInitialWindow(int32(st.MaxWindowSize())); err != nil {")
 	mutant("read-bound-peer", "limit-source", "serverConn.go", "ReadFrameFromWithSize(sc.br, sc.st.frameSize)", "ReadFrameFromWithSize(sc.br, sc.clientS.frameSize)")
 	mutant("second-data-emitter", "data-emitters", "serverConn.go", "func (sc *serverConn) writePing() {", "func (sc *serverConn) writeRaw(id uint32, b []byte) {\n	fr := AcquireFrameHeader()\n	fr.SetStream(id)\n	d := AcquireFrame(FrameData).(*Data)\n	d.SetData(b)\n	fr.SetBody(d)\n	sc.write(fr)\n}\n\nfunc (sc *serverConn) writePing() {")
 	// ---- C08 / KSA
 	mutant("endstream-any-type", "flag-scope", "serverConn.go", "if (fr.Type() == FrameData || fr.Type() == FrameHeaders) && fr.Flags().Has(FlagEndStream) {\n			strm.SetState(StreamStateHalfClosed)", "if fr.Flags().Has(FlagEndStream) {\n			strm.SetState(StreamStateHalfClosed)")
 	mutant("client-endstream-any-type", "flag-scope", "conn.go", "		return c.block.endStream && fr.Flags().Has(FlagEndHeaders)\n	}\n\n	return false", "		return c.block.endStream && fr.Flags().Has(FlagEndHeaders)\n	}\n\n	return fr.Flags().Has(FlagEndStream)")
-	mutant("assert-wrong-case", "assertion-kinds", "conn.go", "		case FrameWindowUpdate:\n			c.addWindow(0, int32(fr.Body().(*WindowUpdate).Increment()))", "		case FrameWindowUpdate, FramePriority:\n			c.addWindow(0, int32(fr.Body().(*WindowUpdate).Increment()))")
+	allMutants = append(allMutants, Mutant{Name: "assert-wrong-case", Rule: "assertion-kinds", Subs: []Subst{
+		{File: "conn.go", Old: "		case FrameWindowUpdate:\n			c.addWindow(0, int32(fr.Body().(*WindowUpdate).Increment()))", New: "		case FrameWindowUpdate, FrameGoAway:\n			c.addWindow(0, int32(fr.Body().(*WindowUpdate).Increment()))"},
+		{File: "conn.go", Old: "		case FrameGoAway:\n			ga := fr.Body().(*GoAway)", New: "		case 99:\n			ga := fr.Body().(*GoAway)"},
+	}})
 	mutant("window-limit-ge", "window-limit-strict", "serverConn.go", "if sc.clientWindow > 1<<31-1 {", "if sc.clientWindow >= 1<<31-1 {")
 	// ---- C01 / C09 / C13 / C20 server
 	mutant("dispatch-without-marker", "srv-dispatch-once", "serverConn.go", "if strm.State() == StreamStateHalfClosed && strm.headersFinished && !strm.responded {\n				strm.responded = true\n", "if strm.State() == StreamStateHalfClosed && strm.headersFinished && !strm.responded {\n")
 	mutant("dispatch-before-headers-finished", "srv-dispatch-once", "serverConn.go", "if strm.State() == StreamStateHalfClosed && strm.headersFinished && !strm.responded {", "if strm.State() == StreamStateHalfClosed && !strm.responded {")
 	mutant("carryover-wrong-cursor", "hdr-carryover", "serverConn.go", "strm.previousHeaderBytes = append(strm.previousHeaderBytes, pb...)", "strm.previousHeaderBytes = append(strm.previousHeaderBytes, b...)")
 	mutant("new-stream-error-in-loop", "no-stream-error-inside-decode-loop", "serverConn.go", "		// From here on it is a regular header field.\n		strm.regularSeen = true\n", "		// From here on it is a regular header field.\n		strm.regularSeen = true\n\n		if len(v) > 8192 {\n			return NewResetStreamError(EnhanceYourCalm, \"header value too long\")\n		}\n")
-	mutant("handler-report-only-on-success", "handler-panic-reports-back", "serverConn.go", "				ctx.Response.SetStatusCode(fasthttp.StatusInternalServerError)\n			}\n\n			select {", "				ctx.Response.SetStatusCode(fasthttp.StatusInternalServerError)\n				return\n			}\n\n			select {")
+	mutant("handler-report-only-on-success", "handler-panic-reports-back", "serverConn.go", "				ctx.Response.SetStatusCode(fasthttp.StatusInternalServerError)\n			}\n", "				ctx.Response.SetStatusCode(fasthttp.StatusInternalServerError)\n				return\n			}\n")
 	mutant("release-while-handler-runs", "abandoned-bookkeeping", "serverConn.go", "		if strm.handlerRunning {\n			strm.abandoned = true", "		if strm.handlerRunning && sc.debug {\n			strm.abandoned = true")
 	mutant("no-limit-before-newstream", "stream-creation-guards", "serverConn.go", "if openStreams >= int(sc.st.maxStreams) || wasClosing {", "if wasClosing {")
 	mutant("create-while-closing", "stream-creation-guards", "serverConn.go", "if openStreams >= int(sc.st.maxStreams) || wasClosing {", "if openStreams >= int(sc.st.maxStreams) {")
@@ -90,8 +93,8 @@ func init() {
 	mutant("cli-frame-size-ignored", "cli-chunk-bound", "conn.go", "		if i+step >= len(body) {\n			step = len(body) - i\n		}", "		if i+step >= len(body) || end {\n			step = len(body) - i\n		}")
 	mutant("window-credit-becomes-store", "window-writers", "conn.go", "	if streamID == 0 {\n		c.connWindow += inc", "	if streamID == 0 {\n		c.connWindow = inc")
 	mutant("delta-sign", "initial-window-delta", "serverConn.go", "delta := int64(int32(st.windowSize)) - int64(curInitialWindow)", "delta := int64(curInitialWindow) - int64(int32(st.windowSize))")
-	mutant("cli-delta-not-remembered", "initial-window-delta", "conn.go", "	delta := size - c.streamWindow\n	c.streamWindow = size\n", "	delta := size - c.streamWindow\n")
-	mutant("no-flush-after-conn-credit", "credit-then-flush", "serverConn.go", "						break loop\n					}\n\n					sc.flushStreams(strms, closeStream)\n				}\n\n				continue", "						break loop\n					}\n				}\n\n				continue")
+	mutant("cli-delta-not-remembered", "initial-window-delta", "conn.go", "	c.streamWindow = size\n\n	for _, pb := range c.pending {\n		pb.window += int32(delta)", "	for _, pb := range c.pending {\n		pb.window += int32(delta)")
+	mutant("no-flush-after-conn-credit", "credit-then-flush", "serverConn.go", "						break loop\n					}\n\n					sc.flushStreams(strms, closeStream)\n				}\n\n				// The credit may", "						break loop\n					}\n				}\n\n				// The credit may")
 	mutant("cli-no-signal", "credit-then-flush", "conn.go", "		pb.window += inc\n	}\n\n	c.sendLck.Unlock()\n\n	c.signalWindow()", "		pb.window += inc\n	}\n\n	c.sendLck.Unlock()")
 	mutant("refused-data-ok-but-priority-skip", "hdr-must-decode", "serverConn.go", "					sc.writeGoAway(fr.Stream(), ProtocolError, \"stream ID is lower than the latest\")\n\n					if canCloseAfterGoAway() {\n						break loop\n					}\n", "					sc.writeReset(fr.Stream(), ProtocolError)\n")
 	mutant("data-on-closed-stream-reset-only", "data-must-credit", "serverConn.go", "						sc.writeGoAway(fr.Stream(), StreamClosedError, \"frame on closed stream\")\n\n						if canCloseAfterGoAway() {\n							break loop\n						}\n					}", "						sc.writeReset(fr.Stream(), StreamClosedError)\n					}")
@@ -235,7 +238,7 @@ func init() {
 	mutant("serve-skips-teardown-on-error", "conn-lifecycle", "serverConn.go", "		err = nil\n	}\n\n	sc.close()\n\n	return err", "		err = nil\n\n		sc.close()\n	}\n\n	return err")
 	mutant("graceful-close-ignores-promised", "conn-lifecycle", "serverConn.go", "			if strm.origType == FrameHeaders && strm.ID() <= ref {\n				return false\n			}", "			if strm.origType == FrameHeaders && strm.ID() < ref {\n				return false\n			}")
 	mutant("abandoned-not-marked", "conn-lifecycle", "serverConn.go", "		if strm.handlerRunning {\n			strm.abandoned = true\n", "		if strm.handlerRunning {\n")
-	mutant("abandoned-answered", "conn-lifecycle", "serverConn.go", "				releaseStream(strm)\n				continue\n			}\n\n			if sc.finishRequest(strm) {", "				releaseStream(strm)\n			}\n\n			if sc.finishRequest(strm) {")
+	mutant("abandoned-answered", "conn-lifecycle", "serverConn.go", "					break loop\n				}\n\n				continue\n			}\n\n			if sc.finishRequest(strm) {", "					break loop\n				}\n			}\n\n			if sc.finishRequest(strm) {")
 	mutant("slot-returned-unconditionally", "conn-lifecycle", "serverConn.go", "		if strm.origType == FrameHeaders {\n			openStreams--\n		}\n\n		if strm.ctx != nil {", "		openStreams--\n\n		if strm.ctx != nil {")
 	mutant("origin-not-recorded", "conn-lifecycle", "serverConn.go", "	strm.origType = frameType\n", "")
 }
@@ -403,14 +406,14 @@ func init() {
 	mutant("ping-answer-without-ack", "emitter-payloads", "serverConn.go", "	ack.SetAck(true)\n	ack.SetData(ping.Data())\n\n	fr := AcquireFrameHeader()\n	fr.SetBody(ack)\n\n	sc.write(fr)", "	ack.SetData(ping.Data())\n\n	fr := AcquireFrameHeader()\n	fr.SetBody(ack)\n\n	sc.write(fr)")
 	mutant("ping-answer-without-data", "emitter-payloads", "conn.go", "	ack.SetData(ping.Data())\n", "")
 	mutant("goaway-code-dropped", "emitter-payloads", "serverConn.go", "	ga.SetCode(code)\n", "")
-	mutant("client-settings-ack-not-queued", "emitter-payloads", "conn.go", "	fr.SetBody(stRes)\n\n	c.writeOut(fr)\n}", "	fr.SetBody(stRes)\n}")
+	mutant("client-settings-ack-not-queued", "emitter-payloads", "conn.go", "	fr.SetBody(stRes)\n\n	c.writeOut(fr)\n\n	return nil\n}", "	fr.SetBody(stRes)\n\n	return nil\n}")
 	mutant("client-data-not-appended", "client-response-shape", "conn.go", "			res.AppendBody(data.Data())\n", "")
 	mutant("client-one-octet-data-dropped", "client-response-shape", "conn.go", "		if data.Len() != 0 {", "		if data.Len() > 1 {")
 	mutant("client-status-range-conjunction", "client-response-shape", "conn.go", "			if err != nil || n < 100 || n > 999 {", "			if err != nil || n < 100 && n > 999 {")
 	mutant("client-status-not-stored", "client-response-shape", "conn.go", "			res.SetStatusCode(n)\n", "")
 	mutant("client-regular-not-marked", "client-response-shape", "conn.go", "		c.block.regularSeen = true\n", "		c.block.regularSeen = false\n")
 	mutant("client-fields-dropped", "client-response-shape", "conn.go", "			res.Header.AddBytesKV(hf.KeyBytes(), hf.ValueBytes())\n", "")
-	mutant("client-initial-window-not-applied", "client-response-shape", "conn.go", "		c.applyInitialWindow(int32(st.MaxWindowSize()))\n", "")
+	mutant("client-initial-window-not-applied", "client-response-shape", "conn.go", "		if err := c.applyInitialWindow(int32(st.MaxWindowSize())); err != nil {\n			// Not acknowledged: the frame is the end of the connection.\n			return err\n		}\n", "")
 	mutant("client-settings-not-kept", "client-response-shape", "conn.go", "	st.applyTo(&c.serverS)\n\n	atomic.StoreUint32(&c.maxStreams", "	atomic.StoreUint32(&c.maxStreams")
 }
 
@@ -504,7 +507,7 @@ func init() {
 	mutant("handshake-credit-dropped", "client-loop-shape", "conn.go", "		wu.SetIncrement(int(maxWin))\n", "")
 	mutant("stream-window-update-ignored", "client-loop-shape", "conn.go", "			c.addWindow(fr.Stream(), int32(fr.Body().(*WindowUpdate).Increment()))\n", "")
 	mutant("conn-window-update-on-stream-one", "client-loop-shape", "conn.go", "			c.addWindow(0, int32(fr.Body().(*WindowUpdate).Increment()))", "			c.addWindow(1, int32(fr.Body().(*WindowUpdate).Increment()))")
-	mutant("routing-test-inverted", "client-loop-shape", "conn.go", "		if fr.Stream() != 0 {\n			break\n		}", "		if fr.Stream() == 0 {\n			break\n		}")
+	mutant("routing-test-inverted", "client-loop-shape", "conn.go", "		if fr.Stream() != 0 {\n			// SETTINGS, PING and GOAWAY are about", "		if fr.Stream() == 0 {\n			// SETTINGS, PING and GOAWAY are about")
 	mutant("goaway-last-stream-not-recorded", "client-loop-shape", "conn.go", "				c.closeRef = ga.stream\n", "")
 	mutant("read-loop-leaves-on-both", "client-loop-shape", "conn.go", "		if stop || c.drained() {", "		if stop && c.drained() {")
 	mutant("finished-response-not-resolved", "client-loop-shape", "conn.go", "			c.finish(r, fr.Stream(), nil)\n", "")
@@ -759,7 +762,7 @@ func init() {
 	mutant("status-mark-survives-the-block", "response-blocks-in-order", "conn.go", "		hb.statusSeen = false\n", "")
 	mutant("ping-timer-re-armed-after-teardown", "teardown-lets-go", "serverConn.go", "	select {\n	case <-sc.writeStop:\n		return\n	case <-sc.writeGone:\n		return\n	default:\n	}\n\n	sc.pingTimer.Reset(sc.pingInterval)", "	sc.pingTimer.Reset(sc.pingInterval)")
 	mutant("held-responses-left-open-at-teardown", "teardown-lets-go", "serverConn.go", "		for _, strm := range strms {\n			sc.dropResponse(strm)\n		}\n", "")
-	mutant("late-handler-leaves-its-body-open", "teardown-lets-go", "serverConn.go", "				_ = ctx.Response.CloseBodyStream()\n			}\n		}()", "			}\n		}()")
+	mutant("late-handler-leaves-its-body-open", "teardown-lets-go", "serverConn.go", "			case <-sc.handlerStop:\n				_ = ctx.Response.CloseBodyStream()\n			}\n		}()", "			case <-sc.handlerStop:\n			}\n		}()")
 	mutant("dropped-response-under-a-running-handler", "teardown-lets-go", "serverConn.go", "	if strm.handlerRunning || strm.ctx == nil {\n		return\n	}\n\n	sc.closeBodyStream(strm)", "	if strm.ctx == nil {\n		return\n	}\n\n	sc.closeBodyStream(strm)")
 }
 
@@ -942,4 +945,17 @@ func init() {
 
 func init() {
 	mutant("body-run-as-long-as-the-window", "cli-chunk-bound", "conn.go", "		if n > sendRun {\n			n = sendRun\n		}\n\n", "")
+}
+
+func init() {
+	mutant("preface-read-in-one-go", "server-construction", "http2.go", "io.ReadFull(br, b[:prefaceLen])", "br.Read(b[:prefaceLen])")
+	mutant("late-handler-report-picked-at-random", "teardown-lets-go", "serverConn.go", "			select {\n			case <-sc.handlerStop:\n				// Nobody is left to send the response, or to close a body\n				// stream the handler put in it.\n				_ = ctx.Response.CloseBodyStream()\n\n				return\n			default:\n			}\n\n", "")
+	mutant("late-handler-report-not-looked-at-again", "teardown-lets-go", "serverConn.go", "				select {\n				case <-sc.handlerStop:\n					sc.dropReported()\n				default:\n				}\n", "")
+	mutant("abandoned-report-does-not-end-the-connection", "server-loop-shape", "serverConn.go", "				releaseStream(strm)\n\n				// See below: this may have been the last stream a GOAWAY\n				// was waiting for.\n				if isClosing() && canCloseAfterGoAway() {\n					break loop\n				}\n", "				releaseStream(strm)\n")
+	mutant("timeout-arm-does-not-end-the-connection", "server-loop-shape", "serverConn.go", "			// A stream that timed out may have been the last one a GOAWAY\n			// was waiting for.\n			if isClosing() && canCloseAfterGoAway() {\n				break loop\n			}\n", "")
+	mutant("settings-on-a-stream-dropped", "client-loop-shape", "conn.go", "			if t := fr.Type(); t == FrameSettings || t == FramePing || t == FrameGoAway {", "			if t := fr.Type(); t == FramePing || t == FrameGoAway {")
+	mutant("stream-frames-on-stream-zero-ignored", "client-loop-shape", "conn.go", "		case FrameData, FrameHeaders, FramePriority, FrameResetStream, FramePushPromise, FrameContinuation:\n", "		case FrameData, FrameHeaders, FramePriority, FrameResetStream, FrameContinuation:\n")
+	mutant("window-overflow-by-settings-accepted", "initial-window-delta", "conn.go", "		if int64(pb.window)+delta > 1<<31-1 {", "		if int64(pb.window)+delta > 1<<32-1 {")
+	mutant("window-overflow-error-not-propagated", "nil-error-not-reported", "conn.go", "		if err := c.applyInitialWindow(int32(st.MaxWindowSize())); err != nil {", "		if err := c.applyInitialWindow(int32(st.MaxWindowSize())); err == nil {")
+	mutant("dropreported-called-with-the-loop-alive", "request-ctx-handoff", "serverConn.go", "			case sc.handlerDone <- strm:\n", "			case sc.handlerDone <- strm:\n				sc.dropReported()\n")
 }
